@@ -16,6 +16,7 @@
 #include <unistd.h>
 
 #include "fiber_manager.h"
+#include "fiber_event.h"
 #include "rt.h"
 
 extern void rt_work(int idx, int n);
@@ -237,6 +238,17 @@ static int io_do_op(int idx, op_t* op) {
       done += r;
       vs_program_advanced();
     }
+    return 1;
+  }
+  if (!strcmp(op->name, "waitnone")) {
+    // the public wait entry point called directly with neither FIBER_POLL_IN nor FIBER_POLL_OUT: nothing can make such a wait
+    // ready, it ends when the descriptor is closed by another fiber (or at once with an error, if the library rejects the mask)
+    int s = (op->a >> 1) % NSTR, d = op->a & 1;
+    int fd = rfd(s, d);
+    waiting_on_fd[idx] = fd + 1;
+    (void)fiber_wait_for_event(fd, (uint32_t)op->b);
+    waiting_on_fd[idx] = 0;
+    while (!str[s].closed[rend(s, d)]) fiber_yield();  // either way the descriptor is left alone until its owner has closed it
     return 1;
   }
   if (!strcmp(op->name, "wrfill")) {
